@@ -325,7 +325,7 @@ class Monitor:
                 src = [k2 for k2 in KINDS if k2 != k and v in taken[k2]]
                 if v in ending[k]:
                     if not changed:
-                        tag = "released-before-failed-delete" if self.poisoned.get((k, v)) == step.get("lseid") else None
+                        tag = self.why(k, v, prev)
                         self.flag(i, f"double-release/{k}" + (f"/{tag}" if tag else ""), f"{k} {v} ({ending[k][v]}) released although it was already free")
                     continue
                 if src:
